@@ -139,6 +139,9 @@ type KnownFinding struct {
 	What       string `json:"what"`
 	Status     string `json:"status"` // "open" or "fixed"
 	Commit     string `json:"commit,omitempty"`
+	// AlsoIn lists further properties whose checks include the same function: the obligation is
+	// reported as this known finding there as well (it is the same obligation, not a second finding)
+	AlsoIn []string `json:"also_in,omitempty"`
 }
 
 func loadKnown() []KnownFinding {
@@ -154,8 +157,19 @@ func loadKnown() []KnownFinding {
 }
 
 func matchKnown(k KnownFinding, prop, obl string) bool {
-	if k.Property != prop || k.Status == "fixed" {
+	if k.Status == "fixed" {
 		return false
+	}
+	if k.Property != prop {
+		also := false
+		for _, p := range k.AlsoIn {
+			if p == prop {
+				also = true
+			}
+		}
+		if !also {
+			return false
+		}
 	}
 	if strings.HasSuffix(k.Obligation, "*") {
 		return strings.HasPrefix(obl, strings.TrimSuffix(k.Obligation, "*"))
@@ -432,7 +446,13 @@ func (r *checkRun) writeEvidenceFull(wall float64, all []*Obligation, proofObls,
 	}
 	var kf []string
 	for _, k := range known {
-		if k.Property == r.pf.ID {
+		inAlso := false
+		for _, p := range k.AlsoIn {
+			if p == r.pf.ID {
+				inAlso = true
+			}
+		}
+		if k.Property == r.pf.ID || inAlso {
 			kf = append(kf, k.Status+": "+k.Obligation+" — "+k.What)
 		}
 	}
